@@ -2,6 +2,7 @@
 `f(prog, ex, P, tier)`: build the system, run it to quiescence under the symbolic scheduler,
 apply the monitors of property P."""
 import z3
+import time
 
 from . import props as M
 from .sim import Sim
@@ -545,73 +546,139 @@ def identity(prog, ex, P, tier):
 
 
 def id_alloc(prog, ex, P, tier):
-    """identity allocation under concurrent spawning: the atomic operations that one real
-    `spawn_with_mailbox_capacity` performs on the id counter are recorded symbolically (results
-    are fresh z3 variables), then two threads performing that operation list are interleaved in
-    every possible way over a symbolic initial counter value; z3 must refute id1 == id2."""
-    import itertools
+    """identity allocation under concurrent spawning.  Two "threads" (separate thread-local
+    storage) each perform K consecutive real `spawn_with_mailbox_capacity` calls.  Every atomic
+    operation they perform on a *static* is recorded symbolically: its result is a fresh z3
+    variable, so the recorded run stands for every value of the process-wide state; thread-local
+    state starts from its initialiser.  Then every merge of the two threads' atomic-operation
+    sequences is replayed over a symbolic initial value of each static, and z3 must refute
+    "two of the 2K ids are equal" (together with the path conditions of the recorded run).
+    K is the largest prefix (<= 70, thorough 140) whose number of merges stays <= 3000."""
+    import itertools, math
+    KMAX = 70 if tier == "quick" else 140
+    LIMIT = 3000
     s = Sim(prog, ex)
     w = s.w
-    log = []
-    orig = {k: w.builtins[k] for k in ("Atomic::fetch_add", "Atomic::load", "Atomic::store", "Atomic::fetch_sub", "Atomic::fetch_max", "Atomic::fetch_update") if k in w.builtins}
-    from .builtins_std import deref
+    log = []           # (thread, spawn index, kind, static name, operand, result var)
+    cur = [0, 0]
+    orig = dict(w.builtins)
 
-    def is_idctr(it, a):
+    def static_name(it, a):
         r = a[0]
-        return isinstance(r, Ref) and "ACTOR_IDS" in (r.cell.tag or "")
+        if isinstance(r, Ref) and (r.cell.tag or "").startswith("static "):
+            return r.cell.tag[len("static "):]
+        return None
 
     def wrap(kind):
         def f(w_, it, a, c):
-            if not is_idctr(it, a):
+            nm = static_name(it, a)
+            if nm is None:
                 return orig["Atomic::" + kind](w_, it, a, c)
             rv = z3.BitVec("r%d" % len(log), 64)
+            ex.assume(z3.ULT(rv, z3.BitVecVal(2 ** 62, 64)))
             operand = a[1].z() if len(a) > 1 and isinstance(a[1], IntV) else None
-            log.append((kind, operand, rv))
+            log.append((cur[0], cur[1], kind, nm, operand, rv))
             if kind == "store":
                 return UNIT
             return IntV(rv, 64)
         return f
     for kind in ("fetch_add", "load", "store", "fetch_sub"):
         w.builtins["Atomic::" + kind] = wrap(kind)
-    a = s.spawn_actor(Script("A"), 1)
-    idv = a["id"]
-    ex.check("C11", isinstance(idv, IntV), "id is not an integer")
-    ex.check("C11", len(log) >= 1, "spawn performs no atomic operation on the id counter")
-    idexpr = idv.z()
-    n = len(log)
-    ex.check("C11", n <= 4, "more than 4 atomic operations per spawn (outside the bound of this obligation)")
-    x0 = z3.BitVec("x0", 64)
-    k_threads = 2
-    # every merge of the two threads' operation lists
-    for order in set(itertools.permutations([0] * n + [1] * n)):
-        x = x0
+    for kind in ("fetch_max", "fetch_update", "compare_exchange", "compare_exchange_weak", "swap", "fetch_or", "fetch_and"):
+        def unsupported(w_, it, a, c, kind=kind):
+            if static_name(it, a) is not None:
+                raise Unsupported("id allocation uses Atomic::%s on a static (outside this obligation's encoding)" % kind)
+            return orig["Atomic::" + kind](w_, it, a, c)
+        if "Atomic::" + kind in orig:
+            w.builtins["Atomic::" + kind] = unsupported
+    ids = {0: [], 1: []}
+    for th in (0, 1):
+        w.cur_thread = th
+        for k in range(KMAX):
+            cur[0], cur[1] = th, k
+            a = s.spawn_actor(Script("T%d_%d" % (th, k)), 1)
+            ex.check("C11", isinstance(a["id"], IntV), "id is not an integer")
+            ids[th].append(a["id"].z())
+    w.cur_thread = 0
+    ex.check("C11", len(log) >= 1, "spawn performs no atomic operation on a static: ids cannot be process-wide unique")
+    # largest K whose interleaving count is within the limit
+    def nops(th, K):
+        return sum(1 for e in log if e[0] == th and e[1] < K)
+    K = KMAX
+    while K > 1 and math.comb(nops(0, K) + nops(1, K), nops(0, K)) > LIMIT:
+        K -= 1
+    L = {th: [e for e in log if e[0] == th and e[1] < K] for th in (0, 1)}
+    n0, n1 = len(L[0]), len(L[1])
+    statics = sorted({e[3] for e in log})
+    x0 = {nm: z3.BitVec("x0_" + nm, 64) for nm in statics}
+    allids = ids[0][:K] + ids[1][:K]
+    pcs = list(ex.path_conds)
+    nint = 0
+    t_smt = 0.0
+    for pos0 in itertools.combinations(range(n0 + n1), n0):
+        nint += 1
+        order = [1] * (n0 + n1)
+        for p_ in pos0:
+            order[p_] = 0
+        x = dict(x0)
         pos = [0, 0]
-        subst = [[], []]
+        sub = []
         for th in order:
-            kind, operand, rv = log[pos[th]]
+            _t, _k, kind, nm, operand, rv = L[th][pos[th]]
             pos[th] += 1
-            fresh = z3.BitVec("t%d_%s" % (th, rv), 64)
-            opnd = z3.substitute(operand, *subst[th]) if operand is not None and subst[th] else operand
-            if kind == "load":
-                val = x
-            elif kind == "store":
-                val = x
-                x = opnd
+            opnd = z3.substitute(operand, *sub) if operand is not None and sub and not z3.is_bv_value(operand) else operand
+            val = x[nm]
+            if kind == "store":
+                x[nm] = opnd
             elif kind == "fetch_add":
-                val = x
-                x = x + opnd
+                x[nm] = x[nm] + opnd
             elif kind == "fetch_sub":
-                val = x
-                x = x - opnd
-            subst[th].append((rv, val))
-        id1 = z3.substitute(idexpr, *subst[0]) if subst[0] else idexpr
-        id2 = z3.substitute(idexpr, *subst[1]) if subst[1] else idexpr
-        # ids wrap only after 2^64 spawns: exclude the wrap-around start values
-        ex.check("C11", z3.Implies(z3.ULT(x0, z3.BitVecVal(2 ** 63, 64)), id1 != id2),
-                 "two concurrent spawns can obtain the same id under interleaving %s of their atomic operations %s" % (order, [k for k, _o, _r in log]))
-    ex.event(ev="id_alloc", atomic_ops=[k for k, _o, _r in log], interleavings=len(set(itertools.permutations([0] * n + [1] * n))))
+                x[nm] = x[nm] - opnd
+            sub.append((rv, val))
+        sol = z3.Solver()
+        for nm in statics:
+            sol.add(z3.ULT(x0[nm], z3.BitVecVal(2 ** 62, 64)))
+        used = {str(rv) for rv, _v in sub}
+        for c in pcs:
+            # path conditions that mention operations beyond the prefix do not constrain it
+            names = {str(v) for v in z3_vars(c)}
+            if names and not names <= used | {str(v) for v in x0.values()}:
+                continue
+            sol.add(z3.substitute(c, *sub) if sub else c)
+        idsub = [z3.substitute(e, *sub) if sub else e for e in allids]
+        sol.add(z3.Not(z3.Distinct(*idsub)) if len(idsub) > 1 else z3.BoolVal(False))
+        t0 = time.time()
+        r = sol.check()
+        t_smt += time.time() - t0
+        ex.smt_queries += 1
+        if r == z3.unknown:
+            raise Unsupported("solver returned unknown on the id-uniqueness query")
+        if r == z3.sat:
+            m = sol.model()
+            vals = [m.eval(e, model_completion=True).as_long() for e in idsub]
+            dup = sorted({v for v in vals if vals.count(v) > 1})
+            who = [("thread%d spawn#%d" % (0 if i < K else 1, i if i < K else i - K)) for i, v in enumerate(vals) if v in dup]
+            ex.check("C11", False, "two spawns can obtain the same id %s (%s) with initial static values %s under the interleaving %s of the atomic operations %s" % (
+                dup, ", ".join(who[:4]), {nm: m.eval(x0[nm], model_completion=True).as_long() for nm in statics}, "".join(map(str, order)),
+                [(e[0], e[1], e[2], e[3]) for e in L[0] + L[1]][:8]))
+    ex.smt_time += t_smt
+    ex.event(ev="id_alloc", spawns_per_thread=K, executed_spawns_per_thread=KMAX, atomic_ops=[n0, n1], statics=statics, interleavings=nint,
+             thread_locals=sorted({k[1] for k in getattr(w, "tls", {})}))
     ex.steps = s.it.steps
     ex.sim = s
+
+
+def z3_vars(e):
+    out, seen, todo = [], set(), [e]
+    while todo:
+        t = todo.pop()
+        if t.get_id() in seen:
+            continue
+        seen.add(t.get_id())
+        if z3.is_const(t) and t.decl().kind() == z3.Z3_OP_UNINTERPRETED:
+            out.append(t)
+        todo.extend(t.children())
+    return out
 
 
 # ---- metrics (C20) ------------------------------------------------------------------------------
